@@ -268,7 +268,8 @@ def _hook(res, seg, nmin):
     cid = list(getattr(res, "_verif_coef_id", []) or [])
     run_key = {7: "hdd_tidd_cdd_smooth", 5: "hdd_tidd_cdd", 4: "c_hdd_tidd_smooth", 3: "c_hdd_tidd", 1: "tidd"}.get(len(cid))
     # key = the model the optimiser was run on (what the recorded box belongs to); stored_key = after reduce_model
-    return {"key": run_key, "stored_key": res.model_key, "readback_gap": rgap, "coef_id": list(getattr(res, "_verif_coef_id", []) or []),
+    return {"key": run_key, "stored_key": res.model_key, "readback_gap": rgap,
+            "x_reduced": [float(v) for v in np.asarray(res.x, dtype=float)], "coef_id": list(getattr(res, "_verif_coef_id", []) or []),
             "bnds": None if b is None else [[float(v) for v in row] for row in np.asarray(b)],
             "x_raw": None if getattr(res, "_verif_x_raw", None) is None else [float(v) for v in res._verif_x_raw],
             "T": [float(v) for v in seg["temperature"].values], "obs": [float(v) for v in seg["observed"].values],
@@ -318,9 +319,12 @@ def fit_case(spec):
         out["year2"] = _rows(pr2, spec, obs_col=False)
         # reload stage: the model restored from its own document must recover the building just as well
         out["reload"] = {}
+        import contextlib
+        import io
         for how in ("json", "dict"):
             try:
-                restored = type(model).from_json(model.to_json()) if how == "json" else type(model).from_dict(model.to_dict())
+                with contextlib.redirect_stdout(io.StringIO()):      # the settings constructor prints a developer-mode notice
+                    restored = type(model).from_json(model.to_json()) if how == "json" else type(model).from_dict(model.to_dict())
                 rb = restored.predict(bd, ignore_disqualification=True)
                 r2 = restored.predict(rd, ignore_disqualification=True)
                 out["reload"][how] = {"base": _rows(rb, spec), "year2": _rows(r2, spec, obs_col=False)}
@@ -338,6 +342,8 @@ def fit_case(spec):
                 hb, hk, cb, ck = get_smooth_coeffs(x[0], x[2], x[3], x[5])
                 x = [hb, x[1], hk, cb, x[4], ck, x[6]]
             out["xeff"][key] = [float(v) for v in x]
+        out["final_bounds_scalar"] = _f(model.settings.final_bounds_scalar)
+        out["alpha_final_type"] = None if model.settings.alpha_final_type is None else str(getattr(model.settings.alpha_final_type, "value", model.settings.alpha_final_type))
         nmin = model.settings.segment_minimum_count
         out["final"] = {}
         out["initial"] = {}
